@@ -9,7 +9,7 @@ sys.path.insert(0, V)
 from rules import factcache, normalize
 
 fns = set()
-shape = {"adts": {}, "fns": {}, "enums": []}
+shape = {"adts": {}, "fns": {}, "enums": [], "consts": {}}
 for cfg in ("default", "all", "none", "rel"):
     raw = json.load(open(factcache.gen("/repo", cfg)))
     for b in raw["bodies"]:
@@ -17,6 +17,9 @@ for cfg in ("default", "all", "none", "rel"):
     for f in raw["fns"]:
         fns.add(f["path"])
     shape["enums"] = sorted(set(shape["enums"]) | {a["path"] for a in raw["adts"] if a["kind"] == "Enum"})
+    for c in raw["consts"]:
+        if "int" in c and not c["path"].endswith("::_"):
+            shape["consts"].setdefault(c["path"], [c["ty"], c["int"]])
     s = normalize.shape_of(raw)
     for k in ("adts", "fns"):
         for p, v in s[k].items():
